@@ -181,7 +181,8 @@ func (p Pos) After(p2 Pos) bool {
 	if !p.IsValid() {
 		return false
 	}
-	return p.offs > p2.offs
+	// Note that p2 may be a recovered position, which has no real offset.
+	return p.Offset() > p2.Offset()
 }
 
 func posAddCol(p Pos, n int) Pos {
